@@ -60,7 +60,7 @@ def render(n, kinds, edges, forms, layout=None):
                 out.append("from . import b")
         if mod == "b":
             out += ["import vfg as pkg", "from . import a"]
-        out += ["", "def passthru(f):", "    @functools.wraps(f)", "    def w(*a, **k):", "        return f(*a, **k)", "    return w", ""]
+        out += ["", "def passthru(f):", "    @functools.wraps(f)", "    def w(*_pa, **_pk):", "        return f(*_pa, **_pk)", "    return w", ""]
         for i in nodes:
             if kinds[i] == "M":
                 out.append("@m.memento_function")
